@@ -223,7 +223,17 @@ class Source:
         """kind in struct|enum|const|type|static|macro_call.  `owner` = impl type for
         associated consts."""
         t = self.text
-        if owner:
+        if owner and owner.startswith('mod:'):
+            mname = owner[4:]
+            regions = []
+            for m in re.finditer(r'(?m)^(?:pub\s+)?mod\s+%s\s*\{' % re.escape(mname), t):
+                if self.skip[m.start()] or self.depth[m.start()] != 0:
+                    continue
+                o = m.end() - 1
+                regions.append((o, match_brace(t, o, self.skip), 1))
+            if not regions:
+                raise ExtractError('%s: mod %s not found' % (self.path, mname))
+        elif owner:
             regions = [(o, c, 1) for (_s, o, c) in self.impl_span(owner)]
         else:
             regions = [(0, len(t), 0)]
@@ -386,6 +396,14 @@ def rewrite_body(body, log, r14=None):
         return 'for %s in 0..%s.len() { let %s = %s[%s];' % (iv, arr, pat, arr, iv)
     body = _FOR_ARR_CONST.sub(r2_const, body)
 
+    # R2 (c) -- consuming loop over a local Vec of Copy tuples: `for (a, b) in v {` -> index loop
+    def r2_tuple(mo):
+        log.append('R2')
+        pat, vec = mo.group(1), mo.group(2)
+        iv = 'i_' + vec
+        return 'for %s in 0..%s.len() { let %s = %s[%s];' % (iv, vec, pat, vec, iv)
+    body = re.sub(r'\bfor\s+(\([^)]*\))\s+in\s+([a-z_]\w*)\s*\{', r2_tuple, body)
+
     # R10 -- drain(..)
     def r10(mo):
         log.append('R10')
@@ -413,6 +431,12 @@ def rewrite_body(body, log, r14=None):
         if n:
             body = re.sub(r'\b%s::new\(\)' % alias, 'Vec::new()', body)
             log.extend(['R3'] * n)
+
+    # R6 -- formatting arguments of panic! messages are dropped (Display impls are not extracted)
+    def r6_panic(mo):
+        log.append('R6')
+        return 'panic!("%s")' % mo.group(1).replace('{}', '').replace('{:?}', '').rstrip(': ')
+    body = re.sub(r'panic!\("([^"]*)",[^;]*?\)(?=\s*[,;}\n])', r6_panic, body)
 
     # R13 -- opaque map type
     body, n = re.subn(r'\bFxHashMap::default\(\)', 'PositionCountMap::default()', body)
@@ -444,6 +468,10 @@ def rewrite_sig(head, ret_name, log):
 def rewrite_item(text, log):
     """R3/R6/R11/R12/R13 on non-function items."""
     text, n = re.subn(r'\bFxHashMap<u64,\s*u8>', 'PositionCountMap', text)
+    log.extend(['R13'] * n)
+    text, n = re.subn(r'\bFxHashMap<\(u8,\s*u64\),\s*Bitboard>', 'AttackCacheMap', text)
+    log.extend(['R13'] * n)
+    text, n = re.subn(r'\bLruCache<\(u64,\s*u8\),\s*ChessMoveList>', 'MoveCacheMap', text)
     log.extend(['R13'] * n)
     text, n = re.subn(r'SmallVec<\[([^;\]]+);\s*\d+\]>', r'Vec<\1>', text)
     log.extend(['R3'] * n)
